@@ -409,7 +409,7 @@ func natSingleDo(c *callCtx) []cont {
 	// winner
 	ws := c.st.clone()
 	ws.path += "W"
-	wctx := &callCtx{ex: ex, st: ws, cc: c.cc, site: c.site, sig: clo.fn.Signature}
+	wctx := &callCtx{ex: ex, st: ws, cc: c.cc, site: c.site, sig: clo.fn.Signature, forceInline: true}
 	var outs []cont
 	for _, r := range ex.callFunc(ws, clo.fn, nil, clo.binds, c.site, wctx) {
 		if r.panicked {
@@ -418,6 +418,7 @@ func natSingleDo(c *callCtx) []cont {
 		}
 		fs := r.val.Fs
 		r.st.notes = append(r.st.notes, "sf:winner")
+		ex.set(r.st, "G|ghost.sfWon|", TTrue)
 		outs = append(outs, cont{st: r.st, val: &Val{K: VTuple, Fs: []*Val{fs[0], fs[1], freshVal("shared", boolT)}, Ty: c.sig.Results()}})
 	}
 	// loser
@@ -463,6 +464,7 @@ func natSingleDo(c *callCtx) []cont {
 			}
 		}
 		ls.notes = append(ls.notes, "sf:loser")
+		ex.set(ls, "G|ghost.sfWon|", TFalse)
 		outs = append(outs, cont{st: ls, val: &Val{K: VTuple, Fs: []*Val{v, e, freshVal("shared", boolT)}, Ty: c.sig.Results()}})
 	}
 	return outs
